@@ -132,6 +132,14 @@ def main():
     if not re.search(r"if\s+closeCode\s*==\s*CloseNoStatusReceived\s*\{\s*return\s+\[\]byte\{\}\s*\}", body):
         die("FormatCloseMessage has an unexpected shape")
 
+    # ---- advanceFrame: is a close body of exactly one byte rejected?
+    body = func_body(conn, r"func\s+\(c\s+\*Conn\)\s+advanceFrame\s*\(")
+    if "case CloseMessage:" not in body or "closeCode := CloseNoStatusReceived" not in body:
+        die("advanceFrame: close frame handling not found")
+    close1 = bool(re.search(r"len\(payload\)\s*==\s*1\s*\{[^}]*handleProtocolError", body))
+    if not close1 and re.search(r"len\(payload\)\s*==\s*1", body):
+        die("advanceFrame: unexpected handling of a one byte close body")
+
     # ---- util.go: GUID and challenge key validation
     mm = re.search(r'var\s+keyGUID\s*=\s*\[\]byte\("([^"\\]*)"\)', util)
     if not mm:
@@ -175,6 +183,8 @@ def main():
     lines.append("Definition close_code_range_hi : N := %s." % N(hi))
     lines.append("(* recordCloseCode ignores code <= 0 and code > this *)")
     lines.append("Definition record_close_code_max : N := %s." % N(rec_max))
+    lines.append("(* advanceFrame rejects a close frame whose body is exactly one byte (protocol error) *)")
+    lines.append("Definition close_body1_rejected : bool := %s." % ("true" if close1 else "false"))
     lines.append("")
     lines.append("Definition key_guid : list N := [" + "; ".join(N(b) for b in guid.encode()) + "].")
     lines.append("(* isValidChallengeKey: len(s) == key_len, buf := make([]byte, key_buf_cap), n == key_decoded_len *)")
